@@ -304,7 +304,7 @@ func ruleC01SnapshotWindow(c *Ctx) {
 			for _, n := range b.Nodes {
 				isCleanup := false
 				for _, call := range callsIn(n) {
-					if v, ok := calleeObj(info, call).(*types.Var); ok && !v.IsField() && v.Name() == "cleanup" {
+					if v, ok := calleeObj(info, call).(*types.Var); ok && !v.IsField() && isCleanupVar(f, v) {
 						isCleanup = true
 					}
 				}
@@ -413,7 +413,7 @@ func ruleC01AppendThenIndex(c *Ctx) {
 		fl.solve(an)
 		isCleanup := func(call *ast.CallExpr) bool {
 			v, ok := calleeObj(info, call).(*types.Var)
-			return ok && !v.IsField() && v.Name() == "cleanup"
+			return ok && !v.IsField() && isCleanupVar(f, v)
 		}
 		isCloseW := func(call *ast.CallExpr) bool { return calleeObj(info, call) == types.Object(s.closeWriter) }
 		fl.exits(an, func(ret *ast.ReturnStmt, ord int, st State) {
